@@ -298,6 +298,48 @@ def rule_flows(rep: Report, repo: Repo) -> None:
               expected='the run reads the file the assemble step just wrote, unless --run names one')
 
 
+REPORTING_FLAGS = ('args.silent', 'print_time', 'print_termination')
+
+
+def rule_report_only(rep: Report, repo: Repo) -> None:
+    rep.rule('C20.REPORT-ONLY', 'the reporting options (-s/--silent, print_time, print_termination) gate reporting only: a block that '
+             'runs only when such a flag has a given value binds no name that is read after the block and leaves the function by no '
+             'return / raise / break / continue - so the artefacts and the run are the same with and without the flag', 2)
+    n = 0
+    for rel in (CLI, QS):
+        for fn in [f for f in ast.walk(repo.mod(rel)) if isinstance(f, (ast.FunctionDef, ast.AsyncFunctionDef))]:
+            for node in ast.walk(fn):
+                if not isinstance(node, ast.If):
+                    continue
+                flags = [f for f in REPORTING_FLAGS if any(norm(x) == f for x in ast.walk(node.test))]
+                if not flags:
+                    continue
+                n += 1
+                for branch, body in (('then', node.body), ('else', node.orelse)):
+                    if not body:
+                        continue
+                    bound: Set[str] = set()
+                    exits = []
+                    inside = set()
+                    for st in body:
+                        for x in ast.walk(st):
+                            inside.add(id(x))
+                            if isinstance(x, ast.Name) and isinstance(x.ctx, ast.Store):
+                                bound.add(x.id)
+                            if isinstance(x, (ast.Attribute, ast.Subscript)) and isinstance(x.ctx, ast.Store):
+                                bound.add(norm(x))
+                            if isinstance(x, (ast.Return, ast.Raise, ast.Break, ast.Continue)):
+                                exits.append(type(x).__name__)
+                    live = sorted({b for b in bound for x in ast.walk(fn) if id(x) not in inside and getattr(x, 'lineno', 0) > node.lineno
+                                   and ((isinstance(x, ast.Name) and x.id == b) or (isinstance(x, (ast.Attribute, ast.Subscript)) and norm(x) == b))
+                                   } if bound else [])
+                    rep.check(not live and not exits, 'C20.REPORT-ONLY', f'{fn.name}:if {norm(node.test)}:{branch}',
+                              f'binds {live} used later; exits {exits}' if (live or exits) else f'binds {sorted(bound)} (block-local), no exit',
+                              f'{rel}:{node.lineno} {fn.name}', expected='only reporting inside a block gated by a reporting flag')
+    if n < 2:
+        raise AnalysisError(f'C20.REPORT-ONLY: only {n} blocks gated by a reporting flag found (2 confirmed by hand)')
+
+
 def check(rep: Report, repo: Optional[Repo] = None) -> None:
     repo = repo or Repo()
     rep.units = dict(files=[CLI, QS], argparse_destinations=len(argparse_table(repo)), wrappers=list(WRAPPERS))
@@ -307,6 +349,7 @@ def check(rep: Report, repo: Optional[Repo] = None) -> None:
     rule_defaults(rep, repo)
     rule_version_default(rep, repo)
     rule_flows(rep, repo)
+    rule_report_only(rep, repo)
     rep.not_decided.append('byte equality of the artefacts across routes for all programs (follows from shared code + plumbing, not observed)')
 
 
